@@ -687,4 +687,37 @@ def compressed_grain(chk: Check, K: Kinds, sk):
         has_lba = S.contains(hi, lambda x: isinstance(x, tuple) and x and x[0] == "f" and x[1:4] == want_lba[1:4])
         chk.decide(has_lba, "K-PROV", "grain:compressed-length<-cmp_size", rets[-1],
                    "with embedded LBA the compressed length is the header's cmp_size (u32 @8)", found=S.show(hi)[:200])
+    # continuation read: needed iff header + payload do not fit into the first sector; its length is the overhang
+    if len(reads) > 1 and ok:
+        cont = reads[1]
+        conds = conds_sym(chk, ctx, cont)
+        hl_t, end_t = lo, hi  # header_len, header_len + compressed_len
+        cl_t = None
+        for x in S.walk(hi):
+            if isinstance(x, tuple) and x and x[0] in ("ite", "join"):
+                cl_t = x
+                break
+        tab = {}
+        for hl in (4, 12):
+            for cl in (0, 100, 499, 500, 501, 507, 508, 509, 512, 513, 2000):
+                ov2 = dict(ov)
+                ov2[lo] = hl
+                ov2[hi] = hl + cl
+                # the code may spell the test with compressed_len and header_len separately
+                for cnd, _p in conds:
+                    for y in S.walk(cnd):
+                        if isinstance(y, tuple) and y and y[0] in ("ite", "join") and y != lo:
+                            ov2[y] = cl
+                tab[(hl, cl)] = eval_conds(conds, S.Valuation(1, override=ov2, fields=fl))
+        want = {k: k[0] + k[1] > 512 for k in tab}
+        chk.decide(tab == want, "K-DISPATCH", "grain:continuation-condition", cont,
+                   "the rest of a grain is read iff header length + compressed length exceeds the first sector" if tab == want else
+                   "the continuation read is skipped for some grains whose header + payload spill over the first sector: "
+                   + str(sorted(k for k in tab if tab[k] != want[k])[:6]), expected="header_len + compressed_len > 512")
+        ln = R.expr(ctx, cont.args[0])
+        r = S.equiv(ln, S.op("sub", hi, S.C(512)), n=60, override=ov, fields=fl)
+        chk.decide(r.equal is True, "K-FORMULA", "grain:continuation-length", cont, "continuation length = header length + compressed length - 512",
+                   found=S.show(ln)[:200])
+    elif len(reads) <= 1:
+        chk.violated("K-DISPATCH", "grain:continuation-condition", ctx.func, "grains larger than one sector are never read completely")
     _typestate(chk, ctx, "grain")
